@@ -2,8 +2,8 @@
 from contracts_types import *
 NAME = 'location'
 FEATURES = []
-USES = []
-PRELUDE = ['common.shim.rs']
+USES = ['use vstd::string::*;']
+PRELUDE = ['common.shim.rs', 'error.spec.rs', 'location.shim.rs']
 SUBST = SUBST_COMMON
 ITEMS = location_types() + parser_span_types() + location_fns() + [
     dict(src='src/location.rs', path='impl Span/fn byte_offset', props=['C16'],
@@ -13,4 +13,24 @@ ITEMS = location_types() + parser_span_types() + location_fns() + [
     dict(src='src/location.rs', path='impl Locations/fn same', props=['C16'],
          ensures=[('value', '''r == (if *location == Location::UNKNOWN { None } else {
                 Some(Locations { reference_location: *location, defined_location: *location }) })''')], canaries=['value']),
+]
+# ---- a scanner error becomes a located Error (C16): where the parser says it happened, 1-based column ----
+_SC = SAPHYR + 'scanner.rs'
+ITEMS += budget_types() + error_types() + [
+    dict(src=_SC, path='struct ScanError', derive=''),
+    dict(src=_SC, path='impl ScanError/fn marker', ensures=[('value', '*r == self.mark')], vacuity=False),
+    dict(src=_SC, path='impl ScanError/fn info', trusted=True, ensures=[('value', 'r@ == self.info@')]),
+    dict(src='src/de_error.rs', path='impl Error/fn from_scan_error', props=['C16', 'C01'],
+         rewrites=[(r'use crate::location::SpanIndex;', '', 1, 'R9'),
+                   (r'crate::location::Span \{', 'Span {', 1, 'R6'),
+                   (r'info\.to_ascii_lowercase\(\)\.contains\("unknown anchor"\)', 'str_mentions_unknown_anchor(info)', 1, 'R8'),
+                   (r'info\.to_owned\(\)', 'str_to_owned_string(info)', 1, 'R8')],
+         requires=[('coordinates_below_4g', 'err.mark.line <= u32::MAX && err.mark.col < u32::MAX && err.mark.offsets.chars <= u32::MAX')],
+         ensures=[('C16:a_scanner_error_is_located_at_the_scanners_mark_with_a_one_based_column', '''({
+                let loc = Location { line: err.mark.line as u32, column: (err.mark.col + 1) as u32,
+                                     span: Span { offset: err.mark.offsets.chars as u32, len: 1, byte_info: (0u32, 0u32) } };
+                match r { Error::UnknownAnchor { location } => location == loc,
+                          Error::ExternalMessage { location, .. } => location == loc,
+                          _ => false } })''')],
+         canaries=['C16:a_scanner_error_is_located_at_the_scanners_mark_with_a_one_based_column']),
 ]
